@@ -297,6 +297,13 @@ func (f *dataFamily) Flush() error {
 		f.immutableSeq = immutableSeq
 		f.mutex.Unlock()
 
+		// metadata and index of the rows under immutable memory database must be persisted before
+		// the data and its sequences, rows of persisted sequences are not replayed after restart,
+		// without their metadata/index the data cannot be found or belongs to other series.
+		if err := f.flushMetaAndIndex(); err != nil {
+			return err
+		}
+
 		if err := f.flushMemoryDatabase(immutableSeq, waitingFlushMemDB, func(commitFn func() error) error {
 			// commit new file and remove flushed memory database in one step for readers(ref: Filter),
 			// if not, a query reads the same data from the memory database and from the file.
@@ -332,6 +339,19 @@ func (f *dataFamily) Flush() error {
 	}
 
 	// another flush process is running
+	return nil
+}
+
+// flushMetaAndIndex flushes metadata of database and index of shard which are generated so far.
+// A flush job which starts after the rows were written contains their metadata/index,
+// so waits the running job(maybe started before), then starts a new one or waits the one just started.
+// Index flush persists the metadata before the index.
+func (f *dataFamily) flushMetaAndIndex() error {
+	f.shard.WaitFlushIndexCompleted()
+	if err := f.shard.FlushIndex(); err != nil {
+		return err
+	}
+	f.shard.WaitFlushIndexCompleted()
 	return nil
 }
 
